@@ -210,6 +210,75 @@ func init() {
 		}
 	})
 
+	// ---- clock x prevs x DAG cross product for root-shaped and child-shaped transactions, each case on its own store.
+	// (mutants of valid transactions keep their prevs; a ROOT-shaped transaction with an extreme clock is a case of its own.)
+	register("dag-clock-cross", func(t *testing.T, s *crash.Sweep, thorough bool) {
+		name := "dag.ParseTransaction+State.Add(clock x prevs x DAG)"
+		if !s.WantEntry(name) {
+			return
+		}
+		s.R.Observation("latent: tree.updateOrCreatePath doubles a uint32 tree size in `for clock >= t.treeSize { reRoot() }`; for clocks >= 2^31 it overflows to 0 and never ends. Unreachable on the unchanged tree only because the prevs verifier bounds a transaction's clock by its prevs (seen by reading; the cross product below guards the bound)", "network/dag/tree/tree.go")
+		s.EntryDeadline[name] = 3 * time.Second
+		prevAbandon := s.OnAbandon
+		s.OnAbandon = func() {}
+		defer func() { s.OnAbandon = prevAbandon }()
+		ctx := context.Background()
+		seq := 0
+		for _, withRoot := range []bool{false, true} {
+			for _, prevKind := range []string{"none", "root", "unknown"} {
+				for _, lc := range []uint32{0, 1, 2, 1<<31 - 1, 1 << 31, 1<<32 - 1} {
+					for _, embed := range []bool{true, false} {
+						withRoot, prevKind, lc, embed := withRoot, prevKind, lc, embed
+						s.Case(name, fmt.Sprintf("dag-has-root=%v/prevs=%s/lc=%d/jwk=%v", withRoot, prevKind, lc, embed), true, true, func() ([]byte, func() string) {
+							root, rootPayload := mustTx(txHeader(nil, 0, true, nil), payloadNum(0))
+							var prevs []hash.SHA256Hash
+							switch prevKind {
+							case "root":
+								prevs = []hash.SHA256Hash{root.Ref()}
+							case "unknown":
+								prevs = []hash.SHA256Hash{hash.SHA256Sum([]byte("unknown"))}
+							}
+							raw := signTx(txHeader(prevs, lc, embed, nil), payloadNum(7))
+							return raw, func() string {
+								seq++
+								dir := filepath.Join(os.TempDir(), fmt.Sprintf("c19cross-%d-%d", os.Getpid(), seq))
+								_ = os.MkdirAll(dir, 0o755)
+								db, err := bbolt.CreateBBoltStore(filepath.Join(dir, "dag.db"), stoabs.WithNoSync())
+								if err != nil {
+									panic("harness: " + err.Error())
+								}
+								st, err := dag.NewState(db, dag.NewPrevTransactionsVerifier(), dag.NewTransactionSignatureVerifier(stubTxKeyResolver{}))
+								if err != nil {
+									panic("harness: " + err.Error())
+								}
+								_ = st.Configure(core.ServerConfig{})
+								if withRoot {
+									if err := st.Add(ctx, root, rootPayload); err != nil {
+										panic("harness: root refused: " + err.Error())
+									}
+								}
+								tx, err := dag.ParseTransaction(raw)
+								out := "parse-err"
+								if err == nil {
+									out = "ok"
+									if err := st.Add(ctx, tx, payloadNum(7)); err != nil {
+										out = "add-err"
+									}
+									_, _ = st.XOR(dag.MaxLamportClock)
+									_, _ = st.IBLT(dag.MaxLamportClock)
+								}
+								_ = st.Shutdown()
+								_ = db.Close(ctx)
+								_ = os.RemoveAll(dir)
+								return out
+							}
+						})
+					}
+				}
+			}
+		}
+	})
+
 	register("iblt", func(t *testing.T, s *crash.Sweep, thorough bool) {
 		name := "tree.Iblt.UnmarshalBinary+Subtract+Decode"
 		if !s.WantEntry(name) {
